@@ -155,14 +155,15 @@ def regen_shape(run):
     if not okb:
         run.violation("build-go-shape", {"log": log[-3000:]}, "the C07 source-shape translator does not build", True)
         return None
-    with C.Lock("coq"):
-        p = subprocess.run([os.path.join(C.BIN, "c07shape"), "-repo", C.REPO, "-o", SHAPE_V],
-                           stdout=subprocess.PIPE, stderr=subprocess.PIPE, timeout=120)
+    tmp = C.gen_tmp("RunnerShape.v")
+    p = subprocess.run([os.path.join(C.BIN, "c07shape"), "-repo", C.REPO, "-o", tmp],
+                       stdout=subprocess.PIPE, stderr=subprocess.PIPE, timeout=120)
     facts = [l for l in p.stderr.decode().splitlines() if l.startswith("shape ")]
-    if p.returncode not in (0, 1) or len(facts) != 3:
+    if p.returncode not in (0, 1) or len(facts) != 3 or not os.path.exists(tmp):
         run.violation("shape-translator-failed", {"rc": p.returncode, "stderr": p.stderr.decode()[-2000:]},
                       "harness/cmd/c07shape failed on the repo under test", True)
         return None
+    C.install_gen("RunnerShape.v", tmp)      # atomically, only if changed; put back after a run on a scratch tree
     return facts
 
 
